@@ -83,11 +83,6 @@ def TRef.report (w : TWorld) (r : TRef) (ret : Option Int) : TSnap :=
   | none =>   -- a timer that is not wound to a tymist has no `now`
     { ret := ret, duration := r.dur, elapsed := .error .typeError, remaining := .error .typeError, expired := .error .typeError }
 
-def durOr (d : Option Int) (old : Int) : Int :=
-  match d with
-  | some d => d
-  | none => old
-
 def rstep (w : TWorld) (r : TRef) : TOp → Option (TWorld × TRef × Option Int)
   | .setTyme i v => some (w.set i v, r, none)
   | .tick i => some (w.set i (w.tyme i + w.tock i), r, none)
@@ -149,6 +144,11 @@ def restartsOf : List MEv → Nat
   | .read _ :: es => restartsOf es
   | .restart :: es => restartsOf es + 1
 
+/-- the last of the readings `rs` that follow the reading `ℓ` -/
+def lastReading : Int → List Int → Int
+  | ℓ, [] => ℓ
+  | _, r :: rs => lastReading r rs
+
 /-- feed readings (through `.latest`) and restarts to a timer -/
 def Mono.feed (m : Mono) : List MEv → Except Exn Mono
   | [] => .ok m
@@ -157,16 +157,26 @@ def Mono.feed (m : Mono) : List MEv → Except Exn Mono
     | .error e => .error e
   | .restart :: es => (m.restart none).feed es
 
+def elapsedVal? {σ} : MOp → Option (MVal × σ) → Option Int
+  | .elapsed, some (.int v, _) => some v
+  | _, _ => none
+
+def expiredVal? {σ} : MOp → Option (MVal × σ) → Option Bool
+  | .expired, some (.bool v, _) => some v
+  | _, _ => none
+
 /-- the `elapsed` results among the results of a scenario, in order -/
 def elapsedVals {σ} : List MOp → List (Option (MVal × σ)) → List Int
-  | .elapsed :: ops, some (.int v, _) :: rs => v :: elapsedVals ops rs
-  | _ :: ops, _ :: rs => elapsedVals ops rs
+  | op :: ops, r :: rs => match elapsedVal? op r with
+    | some v => v :: elapsedVals ops rs
+    | none => elapsedVals ops rs
   | _, _ => []
 
 /-- the `expired` results among the results of a scenario, in order -/
 def expiredVals {σ} : List MOp → List (Option (MVal × σ)) → List Bool
-  | .expired :: ops, some (.bool v, _) :: rs => v :: expiredVals ops rs
-  | _ :: ops, _ :: rs => expiredVals ops rs
+  | op :: ops, r :: rs => match expiredVal? op r with
+    | some v => v :: expiredVals ops rs
+    | none => expiredVals ops rs
   | _, _ => []
 
 /-- operations that do not begin a new period -/
